@@ -209,6 +209,11 @@ example : lin (lnSumExp exp [none, some 0, none]) = 1 := by rw [ln_sum_exp_exact
 example : lin (lnSubExp exp (some 0) (some (log 0.5))) = 0.5 := by
   rw [ln_sub_exp_exact _ _ (by simp only [lin]; rw [exp_log (by norm_num), exp_zero]; norm_num)]
   simp only [lin]; rw [exp_log (by norm_num), exp_zero]; norm_num
+/-- hypotheses of `ln_cumsum_exp_exact` and `ln_quadrature_exact` are satisfiable -/
+example : (lnCumsumExp exp [some 0, none])[1]? = some (some 0) := by
+  simp [lnCumsumExp, lnCumsumFrom, lnAddExp]
+example : ∃ r, lnSumExp exp [some 0, none] = some r := by
+  simp [lnSumExp, finites]
 example : checked 0.3 = some 0.3 ∧ checked 1.5 = none ∧ checked (-0.1) = none := by
   refine ⟨(checked_accepts_iff _).mpr ⟨by norm_num, by norm_num⟩, (checked_rejects_iff _).mpr (Or.inr (by norm_num)),
     (checked_rejects_iff _).mpr (Or.inl (by norm_num))⟩
